@@ -125,7 +125,11 @@ impl LoopCampaign {
     let span = t.max(1);
     let kbd_end_at = if rng.chance(1, 8) { Some(rng.below(span as usize + 1) as u64) } else { None };
     let tab_end_at = if has_tablet && rng.chance(1, 16) { Some(rng.below(span as usize + 1) as u64) } else { None };
-    CaseB { layout, layout_name: name, kbd, tab, has_tablet, cfg, tape: vec![], fail_at: None, extra_ticks: rng.below(6) as u32, kbd_end_at, tab_end_at, hybrid: self.hybrid, write_fault: None, read_fault: None, sysread_fault: None, poll_fault: None, syspoll: self.hybrid && (self.force_syspoll || rng.chance(1, 2)) }
+    let case = CaseB { layout, layout_name: name, kbd, tab, has_tablet, cfg, tape: vec![], fail_at: None, extra_ticks: rng.below(6) as u32, kbd_end_at, tab_end_at, hybrid: self.hybrid, write_fault: None, read_fault: None, sysread_fault: None, syswrite_fault: None, poll_fault: None, syspoll: self.hybrid && (self.force_syspoll || rng.chance(1, 2)) };
+    // one hybrid run in eight: a write(2) on the virtual keyboard fails at some point, for good or for a moment
+    let mut case = case;
+    if self.hybrid && !self.write_faults && rng.chance(1, 8) { case.syswrite_fault = Some((rng.below(30), [0u32, 0, 1, 1, 2, 3][rng.below(6)], rng.below(4) as u8)); }
+    case
   }
 }
 
@@ -265,6 +269,7 @@ impl Campaign for LoopCampaign {
     for f in ["signal_interrupts_poll", "spurious_timeout_idle", "spurious_readiness", "io_latency_in_call", "timer_oversleep", "keyboard_unplugged", "tablet_switch_unplugged", "device_order_flipped", "arrival_during_drain", "backoff_sleep"] { acc.declare_fault(f); }
     if self.sweep { acc.declare_fault("io_error_in_driver_call"); }
     if self.write_faults { for f in ["os_write_eagain_under_real_writer", "os_write_epipe_under_real_writer", "os_write_ebadf_under_real_writer", "os_read_ebadf_under_real_driver"] { acc.declare_fault(f); } }
+    if self.hybrid { for f in ["os_write_eagain_at_nth_write_syscall", "os_write_eio_at_nth_write_syscall", "os_write_eintr_at_nth_write_syscall"] { acc.declare_fault(f); } }
     if self.hybrid { if !self.force_syspoll { acc.declare_probe("real_driver_polls_cross_checked"); } acc.declare_probe("polls_through_the_shipped_real_driver_poll"); acc.declare_probe("wait_syscall_timed_out_in_simulated_kernel"); acc.declare_fault("wait_syscall_interrupted_eintr"); acc.declare_fault("wait_syscall_fabricated_readiness"); acc.declare_fault("wait_syscall_stale_edge_dropped"); }
     if self.write_faults { acc.declare_fault("os_read_eio_from_nth_read_syscall_under_real_driver"); for f in ["os_poll_ebadf_under_real_driver", "os_poll_einval_under_real_driver", "os_poll_efault_under_real_driver"] { acc.declare_fault(f); } }
     acc.declare_probe("wakeup_with_two_or_more_events"); acc.declare_probe("both_devices_ready_in_one_wakeup");
@@ -299,6 +304,8 @@ impl Campaign for LoopCampaign {
       acc.probe_n("polls_through_the_shipped_real_driver_poll", s.sys_polls_through_real_driver); acc.probe_n("wait_syscall_timed_out_in_simulated_kernel", s.sys_wait_timeouts); acc.probe_n("wait_syscall_sub_millisecond_timeout_truncated_by_driver", s.sys_subms_truncated);
       acc.fault("wait_syscall_interrupted_eintr", s.sys_wait_eintr); acc.fault("wait_syscall_fabricated_readiness", s.sys_fabricated_ready); acc.fault("wait_syscall_stale_edge_dropped", s.sys_stale_dropped);
       acc.fault("os_read_eio_from_nth_read_syscall_under_real_driver", s.os_sysread_fault);
+      acc.fault("os_write_eagain_at_nth_write_syscall", s.os_syswrite_fault[0]); acc.fault("os_write_eio_at_nth_write_syscall", s.os_syswrite_fault[1]); acc.fault("os_write_enospc_at_nth_write_syscall", s.os_syswrite_fault[2]); acc.fault("os_write_eintr_at_nth_write_syscall", s.os_syswrite_fault[3]);
+      acc.probe_n("failed_write_left_partial_frame_on_device", s.syswrite_partial_frames); acc.probe_n("failed_write_retried_by_writer_and_delivered_once", s.syswrite_retried_ok);
       acc.fault("os_poll_ebadf_under_real_driver", s.os_poll_fault[0]); acc.fault("os_poll_einval_under_real_driver", s.os_poll_fault[1]); acc.fault("os_poll_efault_under_real_driver", s.os_poll_fault[2]);
       acc.probe_n("real_driver_polls_cross_checked", s.real_polls_compared); acc.fault("device_order_flipped", s.order_flipped); acc.fault("arrival_during_drain", s.arrival_during_drain); acc.fault("backoff_sleep", s.backoff_sleeps);
       acc.probe_n("wakeup_with_two_or_more_events", s.multi_event_wakeups); acc.probe_n("both_devices_ready_in_one_wakeup", s.both_devices_ready); acc.probe_n("wakeup_with_sixteen_or_more_events", s.max_events_one_wakeup);
@@ -398,6 +405,27 @@ impl Campaign for LoopCampaign {
                 digest = crate::rng::mix(digest, ok.digest);
                 if ok.stats.os_sysread_fault == 0 { acc.count("sysread_faults_not_reached_on_reexecution", 1); }
                 if let Some(v) = v { verdict = Some(v); fail_case = ck; break 'outer4; }
+              }
+              Err(_) => { acc.count("sut_panics_in_sweep", 1); }
+            }
+          }
+        }
+      }
+      // from every write(2) call of this schedule on, the writes fail (queue full / I/O error), or one call is interrupted
+      if verdict.is_none() {
+        'outer5: for k in 0..out.stats.sys_writes as usize {
+          for (count, kind) in [(0u32, 0u8), (0, 1), (1, 3)] {
+            let mut ck = case.clone(); ck.syswrite_fault = Some((k, count, kind));
+            match run_b(&ck, None) {
+              Ok(ok) => {
+                evaluations_extra += 1;
+                tally(&ok, acc);
+                let mut o2 = ObsB::default();
+                let v = match catch_unwind(AssertUnwindSafe(|| check_trace(&l, &ok.trace, &ok.result, &en, &mut o2))) { Ok(v) => v, Err(e) => { harness_error = Some(format!("reference loop panicked: {}", panic_msg(&e))); None } };
+                state_hashes.push(o2.shape);
+                digest = crate::rng::mix(digest, ok.digest);
+                if ok.stats.os_syswrite_fault.iter().sum::<u64>() == 0 { acc.count("syswrite_faults_not_reached_on_reexecution", 1); }
+                if let Some(v) = v { verdict = Some(v); fail_case = ck; break 'outer5; }
               }
               Err(_) => { acc.count("sut_panics_in_sweep", 1); }
             }
